@@ -36,7 +36,7 @@ func vIsSuccess(r *stun.Message) bool {
 
 // Refresh: takes effect only with valid credentials of the owner; lifetime arithmetic and timer link.
 //
-//verif:props=C03,C06,C19,C04 replay=model bounds="LIFETIME absent or any of 2^32 values; any configured default of 1..2^32-1 whole seconds; owner = authenticated user or another user; arbitrary credential verdicts; REQUESTED-ADDRESS-FAMILY absent or any 3/4-byte value; a second allocation of another client present"
+//verif:props=C03,C06,C19,C04,C14 replay=model bounds="allocation made by the manager directly or by a successful Allocate of the same client; LIFETIME absent or any of 2^32 values; any configured default of 1..2^32-1 whole seconds; owner = authenticated user or another user; arbitrary credential verdicts; REQUESTED-ADDRESS-FAMILY absent or any 3/4-byte value; a second allocation of another client present"
 func VerifHarness_C06_refresh() {
 	s := vNewSrv(false, false)
 	s.lt = time.Duration(vU32()) * time.Second // configured default: whole seconds 1..2^32-1
@@ -47,7 +47,21 @@ func VerifHarness_C06_refresh() {
 	if vBool() {
 		owner = vStr("other-user")
 	}
-	a := s.alloc(c1, owner)
+	var a *allocation.Allocation
+	if vBool() {
+		a = s.alloc(c1, owner)
+	} else {
+		// the allocation was made by this client's own (authenticated) Allocate: whatever that request left behind,
+		// the Refresh is authenticated on its own
+		am := vNewMsg(stun.MethodAllocate, stun.ClassRequest, append([]stun.Setter{vRawAttr{stun.AttrRequestedTransport, []byte{17, 0, 0, 0}}}, vCreds()...)...)
+		areq := s.request(c1)
+		_ = handleAllocateRequest(areq, am)
+		a = s.env.M.GetAllocation(&allocation.FiveTuple{SrcAddr: c1, DstAddr: s.conn.LocalAddr(), Protocol: allocation.UDP})
+		vAssume(a != nil)
+		owner = s.auth.userID
+		s.conn.Writes = nil
+		s.nonce.validated, s.auth.calls = 0, 0
+	}
 	b := s.alloc(c2, s.auth.userID)
 	setters := vCreds()
 	hasLT := vBool()
@@ -86,6 +100,9 @@ func VerifHarness_C06_refresh() {
 	// effect with them
 	vAssertIf(vAnd(effective, granted != 0), vAnd(stillThere, resets == 1), "C06.refresh_rearms_the_allocation_timer_once")
 	vAssertIf(vAnd(effective, granted != 0), vTimerDur(a.VLifetimeTimer()) == granted, "C06.refresh_arms_exactly_the_granted_lifetime")
+	// the client derives its refresh period from what Allocate granted under the same configuration: a Refresh
+	// without LIFETIME must grant that same (configured) lifetime, not less
+	vAssertIf(vAnd(effective, !hasLT), vTimerDur(a.VLifetimeTimer()) == s.lt, "C14.refresh_grants_the_lifetime_the_clients_refresh_period_was_derived_from")
 	vAssertIf(vAnd(effective, granted != 0), vTimerDeadline(a.VLifetimeTimer()) == now+int64(granted), "C06.refresh_counts_from_now")
 	vAssertIf(vAnd(effective, granted == 0), !stillThere, "C06.refresh_zero_deletes_immediately")
 	vAssertIf(vAnd(effective, granted == 0), a.VRelay().Closed == 1, "C06.refresh_zero_closes_the_relay")
